@@ -21,7 +21,7 @@ META = dict(
     note="Durability model is an assumption (directory operations atomic and durable in program order, data durable only after fsync, "
          "any prefix of unsynced appended bytes may survive); rules always/once/update/change/streak/deck (promised records of the non-always rules from "
          "the C22 reference); filing.ocfn itself is replaced by the double (its contract is "
-         "modelled, its code is not run); no I/O errors injected; a crash before the newest file ever reached a flush point (first second of a run, or inside "
+         "modelled, its code is not run); I/O errors only as one transient os.rename failure per run (an extension: the statement quantifies over crashes, not I/O errors); a crash before the newest file ever reached a flush point (first second of a run, or inside "
          "Log.cycle) may leave it empty or with a torn header and is not judged.",
 )
 import json
@@ -669,6 +669,10 @@ def run():
         "holds records is a loss",
         "the harness wrappers around Logger.flush / Log.flush / Log.close that journal the flush points return the wrapped call's result "
         "unchanged; with three logs the loss patterns are cut at every write boundary and once inside each write (not at every byte)",
+        "I/O-fault extension (outside the statement's quantifier, which names histories, crash points and configurations): exactly one "
+        "os.rename of the run raises EACCES, at every position; the same oracles apply (nothing retained is lost except by overwriting the "
+        "oldest slot, retained files contiguous, every non-empty file starts with the header, crash clauses) except 'copy k = stretch of k "
+        "rotations ago', which an aborted rotation legitimately breaks",
         "empty placeholder copies created by the trial open are allowed: 'each file starting with the header' is applied to non-empty files",
         "copy k must hold exactly what the main file held k rotations ago (Logger docstring: keep = number of log copies in rotation)",
         "records are numbered by the logger send that writes them (START, RUN and STOP all log under rule always), so STOP followed by "
@@ -691,7 +695,8 @@ def run():
     return ck.finish(
         rule="configurations (keep x cycle period x size threshold x flush period x reuse x restart kind x one/two/three always logs%s; plus "
              "sparse rule {once,update,change} x write schedule x {no rotation, cycle period below/above flush period} x alone/with always log; "
-             "queue rule {streak,deck} with one element queued per tick x the same rotation settings x alone/with always log) "
+             "queue rule {streak,deck} with one element queued per tick x the same rotation settings x alone/with always log; "
+             "keep {2,3} x every position of a single failing os.rename) "
              "x crash after every journalled "
              "VFS operation x every prefix (all byte offsets) of each file's unsynced bytes; evaluations = crash images + clean-state "
              "comparisons; distinct = (configuration, operation index, loss pattern) with at least one unsynced byte lost"
